@@ -97,7 +97,7 @@ NormMax(M) == LET RECURSIVE Go(_)
 IsMutator(e) == e.op \in {"set_row", "set_col", "delete_row", "swap_rows", "swap_elem", "set", "resize",
                           "transpose_in_place", "clear", "fill", "fill_diag", "fill_band", "fill_tridiag",
                           "fill_row", "fill_col", "add_assign", "sub_assign", "mul_assign", "div_assign",
-                          "add_scalar_assign", "sub_scalar_assign", "neg_assign", "matmul_assign"}
+                          "add_scalar_assign", "sub_scalar_assign", "neg_assign", "matmul_assign", "clone_from"}
 ApplyOp(M, e) ==
   CASE e.op = "set_row" -> IF Acc_SetRow(M, e.i, e.v) THEN SetRow(M, e.i, e.v) ELSE M
     [] e.op = "set_col" -> IF Acc_SetCol(M, e.j, e.v) THEN SetCol(M, e.j, e.v) ELSE M
@@ -121,6 +121,7 @@ ApplyOp(M, e) ==
     [] e.op = "add_scalar_assign" -> Shift(M, e.s)
     [] e.op = "sub_scalar_assign" -> Shift(M, -e.s)
     \* the object is consumed by the by-value operator and the result takes its place (m = -m, m = m * B)
+    [] e.op = "clone_from" -> e.b                        \* Clone::clone_from: the object becomes a copy of the source, shape included
     [] e.op = "neg_assign" -> Neg(M)
     [] e.op = "matmul_assign" -> IF Acc_MatMul(M, e.b) THEN MatMul(M, e.b) ELSE M
     [] OTHER -> M
